@@ -106,6 +106,11 @@ func C02(r *core.Run) int {
 	}
 	cases := specgen.ResponseCases(r.Seed, n)
 	cases = append(cases, specgen.SchemaCases(r.Seed, n/4, false)...)
+	for _, c := range specgen.ExtraCases() {
+		if strings.HasPrefix(c.ID, "X=shared-response-") {
+			cases = append(cases, c)
+		}
+	}
 	for _, c := range specgen.UpstreamCases(core.RepoDir()) {
 		c.Safe = false
 		cases = append(cases, c)
